@@ -296,4 +296,122 @@ example : closureReadCovered nlD 22 7 1 = false ∧ nonlocalInReader nlD 7 1 = t
 example : closureReadCovered { nlD with fns := [{ id := 7, parent := 1, isLambda := false, read := [1], bound := [], nonlocals := [] }] } 22 7 1 = true := by
   decide
 
+/-! ## The pinned tree, deviation (c): a lambda called after its statement
+
+    def f(a, b, c):
+        x = 1
+        k = lambda: x
+        if d():
+            x = 2
+        return tr(0, k())            2 natively, 1 converted
+
+(REAL data; variables 3 x, 4 k, 5 d, 6 tr; nodes 2 args, 6 `x = 1`, 11 the lambda expression, 9 `k = …`, 15 `d()`, 17 `x = 2`, 20 return;
+function 11 = the lambda, reaching every later node, read = {x}, bound = ∅ — but `lamba_check` skips lambdas) -/
+
+def llD : CfgData where
+  fnId := 1
+  graph := { nodes := [2, 6, 9, 11, 15, 17, 20], edges := [(2, 6), (6, 11), (9, 15), (11, 9), (15, 17), (15, 20), (17, 20)] }
+  entry := 2
+  exits := [20]
+  info := [
+    { id := 2, scope := some { read := [], modified := [], deleted := [], bound := [0, 1, 2], globals := [], nonlocals := [], params := [0, 1, 2], annotations := [] }, isForIter := false, forTargets := [], isFnDef := false, fnsIn := some [] },
+    { id := 6, scope := some { read := [], modified := [3], deleted := [], bound := [3], globals := [], nonlocals := [], params := [], annotations := [] }, isForIter := false, forTargets := [], isFnDef := false, fnsIn := some [] },
+    { id := 9, scope := some { read := [3], modified := [4], deleted := [], bound := [4], globals := [], nonlocals := [], params := [], annotations := [] }, isForIter := false, forTargets := [], isFnDef := false, fnsIn := some [11] },
+    { id := 11, scope := some { read := [], modified := [], deleted := [], bound := [], globals := [], nonlocals := [], params := [], annotations := [] }, isForIter := false, forTargets := [], isFnDef := true, fnsIn := some [] },
+    { id := 15, scope := some { read := [5], modified := [], deleted := [], bound := [], globals := [], nonlocals := [], params := [], annotations := [] }, isForIter := false, forTargets := [], isFnDef := false, fnsIn := some [11] },
+    { id := 17, scope := some { read := [], modified := [3], deleted := [], bound := [3], globals := [], nonlocals := [], params := [], annotations := [] }, isForIter := false, forTargets := [], isFnDef := false, fnsIn := some [11] },
+    { id := 20, scope := some { read := [4, 6], modified := [], deleted := [], bound := [], globals := [], nonlocals := [], params := [], annotations := [] }, isForIter := false, forTargets := [], isFnDef := false, fnsIn := some [11] }]
+  fns := [
+    { id := 1, parent := 0, isLambda := false, read := [3, 4, 5, 6], bound := [0, 1, 2, 3, 4], nonlocals := [] },
+    { id := 11, parent := 1, isLambda := true, read := [3], bound := [], nonlocals := [] }]
+def llV : List Nat := [2, 6, 9, 11, 15, 17, 20]
+def llIN : St Nat := solAt [(2, [5, 6]), (6, [5, 6]), (9, [3, 5, 6]), (11, [3, 5, 6]), (15, [4, 5, 6]), (17, [4, 6]), (20, [4, 6])]
+def llOUT : St Nat := solAt [(2, [5, 6]), (6, [3, 5, 6]), (9, [4, 5, 6]), (11, [3, 5, 6]), (15, [4, 6]), (17, [4, 6]), (20, [])]
+def llT : Trace :=
+  [{ node := 2, reads := [], writes := [0, 1, 2], dels := [], fwrites := [], creads := [] },
+   { node := 6, reads := [], writes := [3], dels := [], fwrites := [], creads := [] },
+   { node := 11, reads := [], writes := [], dels := [], fwrites := [], creads := [] },
+   { node := 9, reads := [], writes := [4], dels := [], fwrites := [], creads := [] },
+   { node := 15, reads := [5], writes := [], dels := [], fwrites := [], creads := [] },
+   { node := 17, reads := [], writes := [3], dels := [], fwrites := [], creads := [] },
+   { node := 20, reads := [4, 6], writes := [], dels := [], fwrites := [], creads := [(11, 3)] }]
+
+/-- a closure read by a reaching local function, lambdas included, that really reads the variable and does not bind it -/
+def closureReadsAny (D : CfgData) (T : Trace) (j v : Nat) : Bool :=
+  match T[j]? with
+  | some s => s.creads.any (fun c => c.2 == v && (D.fnsIn s.node).contains c.1 &&
+      (match D.fnOf c.1 with | some fi => fi.read.contains v && !fi.bound.contains v | none => false))
+  | none => false
+
+/-- The closure clause with lambdas counted as local functions is false of the pinned tree: `x = 2` (step 5) finishes, the `return`
+statement calls the lambda, which reads that value — `x` is not live at the exit of `x = 2`. -/
+theorem C07_lambda_full_false :
+    ¬ (∀ (D : CfgData) (V : List Nat) (IN OUT : St Nat) (T : Trace) (i j v : Nat),
+        isFix (Graph.revEdges D.graph.edges) V (liveFlow D) OUT IN = true → isPathB D.graph.edges V T = true →
+        j < T.length → closureReadsAny D T j v = true → isReadBeforeOverwriteB T i j v = true →
+        v ∈ OUT (T.nodeAt i) ∧ v ∈ IN (T.nodeAt (i + 1))) := by
+  intro h
+  have := h llD llV llIN llOUT llT 5 6 3 (by decide) (by decide) (by decide) (by decide) (by decide)
+  revert this
+  decide
+
+example : closureReadCovered llD 20 11 3 = false ∧ readerIsLambda llD 11 = true ∧ nonlocalInReader llD 11 3 = false := by decide
+
+/-! ## The pinned tree, deviation (d): the expression of `except <type>:` is read by no CFG node
+
+    def f(a, b, c):
+        exc = E1
+        if d():
+            exc = E2
+        try:
+            raise E2(tr(1))
+        except exc:
+            return tr(0, 1)
+        return tr(0, 0)               1 natively; converted: E2 propagates
+
+(REAL data; variables 3 E1, 4 exc, 5 d, 6 E2, 7 tr; nodes 2 args, 6 `exc = E1`, 10 `d()`, 12 `exc = E2`, 16 raise, 24 / 29 returns).
+While the raised exception is matched (still step 4, the `raise` node) `exc` is read; no node's Scope records that read. -/
+
+def etD : CfgData where
+  fnId := 1
+  graph := { nodes := [2, 6, 10, 12, 16, 24, 29], edges := [(2, 6), (6, 10), (10, 12), (10, 16), (12, 16), (16, 24), (16, 29)] }
+  entry := 2
+  exits := [16, 24, 29]
+  info := [
+    { id := 2, scope := some { read := [], modified := [], deleted := [], bound := [0, 1, 2], globals := [], nonlocals := [], params := [0, 1, 2], annotations := [] }, isForIter := false, forTargets := [], isFnDef := false, fnsIn := some [] },
+    { id := 6, scope := some { read := [3], modified := [4], deleted := [], bound := [4], globals := [], nonlocals := [], params := [], annotations := [] }, isForIter := false, forTargets := [], isFnDef := false, fnsIn := some [] },
+    { id := 10, scope := some { read := [5], modified := [], deleted := [], bound := [], globals := [], nonlocals := [], params := [], annotations := [] }, isForIter := false, forTargets := [], isFnDef := false, fnsIn := some [] },
+    { id := 12, scope := some { read := [6], modified := [4], deleted := [], bound := [4], globals := [], nonlocals := [], params := [], annotations := [] }, isForIter := false, forTargets := [], isFnDef := false, fnsIn := some [] },
+    { id := 16, scope := some { read := [6, 7], modified := [], deleted := [], bound := [], globals := [], nonlocals := [], params := [], annotations := [] }, isForIter := false, forTargets := [], isFnDef := false, fnsIn := some [] },
+    { id := 24, scope := some { read := [7], modified := [], deleted := [], bound := [], globals := [], nonlocals := [], params := [], annotations := [] }, isForIter := false, forTargets := [], isFnDef := false, fnsIn := some [] },
+    { id := 29, scope := some { read := [7], modified := [], deleted := [], bound := [], globals := [], nonlocals := [], params := [], annotations := [] }, isForIter := false, forTargets := [], isFnDef := false, fnsIn := some [] }]
+  fns := [
+    { id := 1, parent := 0, isLambda := false, read := [3, 4, 5, 6, 7], bound := [0, 1, 2, 4], nonlocals := [] }]
+def etV : List Nat := [2, 6, 10, 12, 16, 24, 29]
+def etIN : St Nat := solAt [(2, [3, 5, 6, 7]), (6, [3, 5, 6, 7]), (10, [5, 6, 7]), (12, [6, 7]), (16, [6, 7]), (24, [7]), (29, [7])]
+def etOUT : St Nat := solAt [(2, [3, 5, 6, 7]), (6, [5, 6, 7]), (10, [6, 7]), (12, [6, 7]), (16, [7]), (24, []), (29, [])]
+def etT : Trace :=
+  [{ node := 2, reads := [], writes := [0, 1, 2], dels := [], fwrites := [], creads := [] },
+   { node := 6, reads := [3], writes := [4], dels := [], fwrites := [], creads := [] },
+   { node := 10, reads := [5], writes := [], dels := [], fwrites := [], creads := [] },
+   { node := 12, reads := [6], writes := [4], dels := [], fwrites := [], creads := [] },
+   { node := 16, reads := [4, 6, 7], writes := [], dels := [], fwrites := [], creads := [] },
+   { node := 24, reads := [7], writes := [], dels := [], fwrites := [], creads := [] }]
+
+def directRead (T : Trace) (j v : Nat) : Bool := match T[j]? with | some s => s.reads.contains v | none => false
+
+/-- With "the step reads `v` directly" in place of `liveGenOK` (i.e. without property C08's `actual reads ⊆ scope.read`) the
+statement is false of the pinned tree. -/
+theorem C07_direct_read_full_false :
+    ¬ (∀ (D : CfgData) (V : List Nat) (IN OUT : St Nat) (T : Trace) (i j v : Nat),
+        isFix (Graph.revEdges D.graph.edges) V (liveFlow D) OUT IN = true → isPathB D.graph.edges V T = true →
+        j < T.length → directRead T j v = true → isReadBeforeOverwriteB T i j v = true →
+        v ∈ OUT (T.nodeAt i) ∧ v ∈ IN (T.nodeAt (i + 1))) := by
+  intro h
+  have := h etD etV etIN etOUT etT 3 4 4 (by decide) (by decide) (by decide) (by decide) (by decide)
+  revert this
+  decide
+
+example : liveGenOK etD etT 4 4 = false ∧ forTargetKilledUnwrittenL etD etT 3 4 4 = false := by decide
+
 end Malt.Analysis.C07
